@@ -12,11 +12,29 @@ def load(prop):
     return importlib.import_module("props." + prop)
 
 
+_feature_binaries = {}
+
+
+def binary_for(out, default_binary, features):
+    if features is None:
+        return default_binary
+    key = ",".join(features)
+    if key not in _feature_binaries:
+        with fw.BuildLock():
+            ok, detail, b = fw.build_harness(features, "-f" + (key.replace(",", "+") or "none"))
+        out.obligation("build:harness[%s]" % (key or "no features"), ok, detail[-2000:])
+        _feature_binaries[key] = b if ok else None
+    return _feature_binaries[key]
+
+
 def run_streams(out, mod, binary, tier, seed, only_request=None):
     for st in mod.streams(tier, seed):
         t0 = time.time()
         try:
-            cases = fw.run_stream(binary, st["stream"], st.get("seed", seed), st["count"], st.get("extra", ()),
+            b = binary_for(out, binary, st.get("features"))
+            if b is None:
+                continue
+            cases = fw.run_stream(b, st["stream"], st.get("seed", seed), st["count"], st.get("extra", ()),
                                   tag=out.prop + "-" + st["name"])
         except Exception as e:  # harness or driver crashed: the correspondence cannot be established
             out.obligation("stream:" + st["name"], False, str(e))
